@@ -1023,7 +1023,7 @@ def run(ck):
     for name, fn in (("pad-witness", _witness),
                      ("padding", lambda: run_pad(ck, 110 if quick else 1500, alias[0])),
                      ("padding-uhf", lambda: run_pad_unrestricted(ck, 30 if quick else 400)),
-                     ("get_rdm", lambda: run_vqe(ck, 64 if quick else 450)),
+                     ("get_rdm", lambda: run_vqe(ck, 48 if quick else 450)),
                      ("get_rdm_uhf", lambda: run_vqe_uhf(ck, 30 if quick else 300)),
                      ("pyscf-get_rdm", lambda: run_pyscf_get_rdm(ck)),
                      ("pyscf-support", lambda: run_pyscf_support(ck))):
